@@ -356,6 +356,11 @@ func resultTypeOfSig(sig *types.Signature) types.Type {
 // frameObligations: every heap component written by the function is unchanged outside the declared footprint
 // (objects allocated during the call are exempt).
 func (e *Enc) frameObligations(written map[string]bool, entry *State, final *State, fp *footprint, prefix, what, reach string) {
+	// a path on which everything was havocked (unknown callee, callee that `modifies everything`) can change heap
+	// components this encoding never names: no finite modifies clause covers it
+	if hc := havocCondSince(entry, final); hc != "false" {
+		e.addObl(&Obligation{Name: prefix + "everything", Kind: "frame", Label: "", Clause: what + " — but a callee on this path may modify everything", Reach: and(reach, hc), Goal: "false"})
+	}
 	keys := make([]string, 0, len(written))
 	for k := range written {
 		keys = append(keys, k)
@@ -393,4 +398,67 @@ func (e *Enc) frameObligations(written map[string]bool, entry *State, final *Sta
 		goal := implies(and(conds...), eq("(select "+exitT+" "+sk+")", "(select "+entryT+" "+sk+")"))
 		e.addObl(&Obligation{Name: prefix + k, Kind: "frame", Label: "", Clause: what + " — " + k + " unchanged elsewhere", Reach: reach, Goal: goal})
 	}
+}
+
+// havocCond: condition (over the path conditions recorded at joins) under which st was reached through a point
+// where everything was havocked.
+func havocCond(st *State) string {
+	return havocCondMemo(st, map[*State]string{})
+}
+
+// havocCondSince: the same, but only for havocs that happened after state `since` (an ancestor of st; nil = function entry).
+func havocCondSince(since, st *State) string {
+	if since == nil || (since.epoch == 0 && since.mergeOf == nil) {
+		return havocCond(st)
+	}
+	memo := map[*State]string{}
+	var rec func(s *State) string
+	rec = func(s *State) string {
+		if r, ok := memo[s]; ok {
+			return r
+		}
+		r := "true"
+		if s.epoch == since.epoch && sameStates(s.mergeOf, since.mergeOf) {
+			r = "false"
+		} else if s.mergeOf != nil {
+			var cs []string
+			for i, p := range s.mergeOf {
+				cs = append(cs, and(s.mergeConds[i], rec(p)))
+			}
+			r = or(cs...)
+		}
+		memo[s] = r
+		return r
+	}
+	return rec(st)
+}
+
+func sameStates(a, b []*State) bool {
+	if len(a) != len(b) {
+		return false
+	}
+	for i := range a {
+		if a[i] != b[i] {
+			return false
+		}
+	}
+	return true
+}
+
+func havocCondMemo(st *State, memo map[*State]string) string {
+	if r, ok := memo[st]; ok {
+		return r
+	}
+	r := "false"
+	if st.mergeOf != nil {
+		var cs []string
+		for i, p := range st.mergeOf {
+			cs = append(cs, and(st.mergeConds[i], havocCondMemo(p, memo)))
+		}
+		r = or(cs...)
+	} else if st.epoch > 0 {
+		r = "true"
+	}
+	memo[st] = r
+	return r
 }
